@@ -60,7 +60,10 @@ def par_json_factory(rd):
         if not isinstance(p, Par): return {"?": type(p).__name__}
         cp = (p.elem is not None and p.elem not in ords) or (p.elem is None and p.lineage[1] == "") or getattr(p, '_verif_copy', False) is True
         return {"runs": p.run_strings, "lin": list(p.lineage), "style": p.style, "lp": [p.list_position[0], list(p.list_position[1])],
-                "elem": None if (cp or p.elem is None) else list(ords[p.elem]), "copy": cp, "anon": p.elem is None,
+                "elem": None if (cp or p.elem is None) else list(ords[p.elem]),
+                # whether a paragraph WITHOUT element is a copy cannot be told from its content (None = not observable); a Par that left
+                # copy.deepcopy in docx_text carries the mark of _shim_deepcopy, an implementation that copies cells by other means does not
+                "copy": True if cp else (None if p.elem is None else False), "anon": p.elem is None,
                 "hs": list(p.html_style), "rs": [[list(r.html_style), r.text] for r in p.runs]}
     return pj
 
